@@ -235,6 +235,10 @@ SPECS["C02"] = {
          "what": "ECAL addEventAndWait with two sinks (second on a child event, scope-restricted), failing flags / child / scope symbolic; result list checked", "reach": ["evaluated"],
          "quick": {"params": {"WORKERS": 1, "P": 0}, "unwind": 60, "wall_s": 600},
          "thorough": {"params": {"WORKERS": 2, "P": 1}, "unwind": 60, "wall_s": 3000}},
+        {"name": "H4-nested-wait", "pkg": "engine", "files": ["engine/c02.go"], "fn": "VerifC02NestedWait",
+         "what": "N outer events added back to back to N+1 workers, every outer action waits for an inner cascade (nested wait on a worker); all schedules with <= P pre-emptions", "reach": ["quiescent"],
+         "quick": {"params": {"N": 2, "P": 1}, "unwind": 40, "wall_s": 600},
+         "thorough": {"params": {"N": 2, "P": 2}, "unwind": 40, "wall_s": 3000}},
         {"name": "H2-two-cascades", "pkg": "engine", "files": ["engine/c02.go"], "fn": "VerifC02TwoCascades",
          "what": "two cascades in flight, 1 worker sequential (quick) / 2 workers P<=1 (thorough)", "reach": ["second-returned", "all-idle"],
          "quick": {"params": {"WORKERS": 1, "DEPTH": 1, "MAXEVS": 5, "P": 0}, "unwind": 40, "wall_s": 300},
